@@ -270,28 +270,31 @@ Definition nth (h : hostlist) (n : Z) : outcome (option text) := nth_loop h n 0%
 (* ------------------------------------------------------------------ delete *)
 Inductive shift_ev := EvNone | EvDel (n : Z) | EvIns (n : Z).
 
-Fixpoint delete_loop (h : hostlist) (n cnt : Z) (i : Z) : hostlist * shift_ev :=
+Definition site_delete_host_assert : nat := 651.   (* hostrange_delete_host: assert(n >= hr->lo && n <= hr->hi) *)
+
+Fixpoint delete_loop (h : hostlist) (n cnt : Z) (i : Z) : outcome (hostlist * shift_ev) :=
   match h with
-  | [] => ([], EvNone)
+  | [] => Ok ([], EvNone)
   | r :: rest =>
     let nir := int_of_ulong (hr_count r) in
     if (n <=? nir - 1 + cnt)%Z then
       let num := add64 (hr_lo r) (wrap64 (n - cnt)) in
-      if hr_single r then (rest, EvDel i)
+      if hr_single r then Ok (rest, EvDel i)
+      else if (GenHL.NDEBUG =? 0) && ((num <? hr_lo r) || (hr_hi r <? num)) then Abort site_delete_host_assert
       else if num =? hr_lo r then
              let r' := with_lo r (add64 (hr_lo r) 1) in
-             if hr_empty r' then (rest, EvDel i) else (r' :: rest, EvNone)
+             if hr_empty r' then Ok (rest, EvDel i) else Ok (r' :: rest, EvNone)
       else if num =? hr_hi r then
              let r' := with_hi r (sub64 (hr_hi r) 1) in
-             if hr_empty r' then (rest, EvDel i) else (r' :: rest, EvNone)
-      else (with_hi r (sub64 num 1) :: with_lo r (add64 num 1) :: rest, EvIns (i + 1))
-    else let (rest', ev) := delete_loop rest n (to_int (cnt + nir)) (i + 1) in (r :: rest', ev)
+             if hr_empty r' then Ok (rest, EvDel i) else Ok (r' :: rest, EvNone)
+      else Ok (with_hi r (sub64 num 1) :: with_lo r (add64 num 1) :: rest, EvIns (i + 1))
+    else bind (delete_loop rest n (to_int (cnt + nir)) (i + 1)) (fun p => Ok (r :: fst p, snd p))
   end.
 
 (* hostlist_delete_nth; [bound] is hl->nhosts of the assert *)
 Definition delete_nth_ev (bound : Z) (h : hostlist) (n : Z) : outcome (hostlist * shift_ev) :=
   if (GenHL.NDEBUG =? 0) && ((n <? 0)%Z || (bound <? n)%Z) then Abort site_delete_nth_assert
-  else Ok (delete_loop h n 0%Z 0%Z).
+  else delete_loop h n 0%Z 0%Z.
 Definition delete_nth (h : hostlist) (n : Z) : outcome hostlist :=
   bind (delete_nth_ev (count h) h n) (fun p => Ok (fst p)).
 
